@@ -2,6 +2,7 @@ package sem
 
 import (
 	openfgav1 "github.com/openfga/api/proto/openfga/v1"
+	"sort"
 	"strings"
 
 	"github.com/openfga/openfga/verifharness/drive"
@@ -472,8 +473,44 @@ func ClassifyListUsersMissing(prefix string, p *Prepared, rc *ref.Case, object, 
 // nested exclusions return subtracted users.
 const FindingListUsersExclusion = "listusers-exclusion-bookkeeping"
 
-// ClassifyListUsersExclusion is the firing condition of FindingListUsersExclusion: the requested
-// relation can involve an exclusion (ref.Model.ReachesExclusion).
+// ClassifyListUsersByModel attributes a deviating ListUsers answer (got) to FindingListUsersExclusion
+// when the relation can involve an exclusion AND the executable model of the implementation's message
+// calculus (lumodel.go) predicts exactly this answer. When the model cannot decide (the outcome depends
+// on message order, or it gave up) the answer is attributed on the structural condition alone and
+// notDecided is true. Returns "" when the model is determinate and predicts something else.
+func ClassifyListUsersByModel(prefix string, p *Prepared, rc *ref.Case, object, relation, filterType, filterRel string, got []string, truncated bool) (finding string, notDecided bool) {
+	typ, _ := ref.SplitObject(object)
+	if !p.Ref.ReachesExclusion(typ, relation) {
+		return "", false
+	}
+	pred, m := PredictListUsers(rc, object, relation, filterType, filterRel)
+	if !m.Determinate() {
+		return prefix + "-" + FindingListUsersExclusion, true
+	}
+	g := append([]string{}, got...)
+	sort.Strings(g)
+	if strings.Join(g, ",") == strings.Join(pred, ",") {
+		return prefix + "-" + FindingListUsersExclusion, false
+	}
+	if truncated {
+		// a result cut by a limit or deadline is explained when it is a subset of the prediction
+		in := map[string]bool{}
+		for _, u := range pred {
+			in[u] = true
+		}
+		for _, u := range g {
+			if !in[u] {
+				return "", false
+			}
+		}
+		return prefix + "-" + FindingListUsersExclusion, false
+	}
+	return "", false
+}
+
+// ClassifyListUsersExclusion is the structural firing condition of FindingListUsersExclusion: the
+// requested relation can involve an exclusion (ref.Model.ReachesExclusion). Used by checks whose
+// subject is not ListUsers itself; C06 uses ClassifyListUsersByModel.
 func ClassifyListUsersExclusion(prefix string, p *Prepared, object, relation string) string {
 	typ, _ := ref.SplitObject(object)
 	if p.Ref.ReachesExclusion(typ, relation) {
